@@ -294,10 +294,31 @@ func domBarred(s stream) string {
 	return ""
 }
 
-// Markdown additionally: a header separator line is made of dashes.
+// Markdown additionally: the line after the header is the separator line
+// "| --- | --- |"; a header or data row all of whose cells are made of dashes
+// (with optional alignment colons) is spelled like a separator line, which
+// markdown-tabular syntax itself cannot tell apart.
 func domMarkdown(s stream) string {
 	if r := domBarred(s); r != "" {
 		return r
+	}
+	dashes := func(c string) bool {
+		c = strings.TrimSuffix(strings.TrimPrefix(c, ":"), ":")
+		return c != "" && strings.Trim(c, "-") == ""
+	}
+	for _, r := range s {
+		allK, allV := true, true
+		for _, f := range r {
+			if !dashes(f.K) {
+				allK = false
+			}
+			if !dashes(f.V) {
+				allV = false
+			}
+		}
+		if allK || allV {
+			return "row-spelled-like-separator-line"
+		}
 	}
 	return ""
 }
